@@ -213,8 +213,19 @@ class H:
             o.fields[fname] = value
         return o.fields.get(fname)
 
+    def _setup_new(self, clsname, name):
+        """default construction of an individual of a pre-state (its lists are set by the harness afterwards): scaffolding, not a call
+        under test - the `python -W error` mode does not apply to it (a tree that warns about a default-constructed open end would
+        otherwise end the analysis before any obligation is evaluated)"""
+        from . import ae as _ae
+        saved, _ae.WARNINGS_AS_ERRORS = _ae.WARNINGS_AS_ERRORS, False
+        try:
+            return self.new(clsname, name)
+        finally:
+            _ae.WARNINGS_AS_ERRORS = saved
+
     def vertex(self, name, clsname="Vertex", links=None, universes=None):
-        v = self.new(clsname, name)
+        v = self._setup_new(clsname, name)
         self.field(v, "_links", Seq(list(links) if links is not None else [], "list"))
         self.field(v, "_universes", Seq(list(universes) if universes is not None else [], "list"))
         self.field(v, "_Vertex__qa_nb_cache")
@@ -222,15 +233,12 @@ class H:
 
     def link(self, name, clsname, ends):
         c = self.cls(clsname)
-        if clsname in ("SymLink",):
-            l = self.new(clsname, name)
-        else:
-            l = self.new(clsname, name)
+        l = self._setup_new(clsname, name)
         self.field(l, "_vertices", Seq(list(ends), "list"))
         return l
 
     def universe(self, name, members=(), clsname="Universe"):
-        u = self.new(clsname, name)
+        u = self._setup_new(clsname, name)
         self.field(u, "_vertices", Seq(list(members), "list"))
         self.field(u, "_links")
         return u
